@@ -1,6 +1,6 @@
 SPECIFICATION GenSpec
 CONSTANTS
-  Fams = {"lex", "text", "control", "while", "try", "tryloop", "apply", "loader", "ws", "errors", "errors2"}
+  Fams = {"lex", "text", "control", "control4", "while", "try", "tryloop", "blockloop", "apply", "loader", "ws", "errors", "errors2"}
   Grow = 1
   SLen = 0
   Fuel = 3
